@@ -12,6 +12,20 @@ def pick(r, xs):
     return xs[r.randrange(len(xs))] if xs else None
 
 
+def local_pool(w, r, anchor, kinds, scope="mod"):
+    """Candidates of `kinds`; with cfg prefer_local_refs, mostly those in the
+    same module (or IR) as `anchor`."""
+    m = w.m
+    pool = m.by_kind(*kinds)
+    if anchor is not None and w.cfg.get("prefer_local_refs") and r.random() < 0.85:
+        a = m.ancestor(anchor, scope) if anchor in m.nodes else None
+        if a is not None:
+            loc = [l for l in pool if m.ancestor(l, scope) == a]
+            if loc:
+                return loc
+    return pool
+
+
 def gen_attrs(w, r, kind):
     cfg = w.cfg
     m = w.m
@@ -75,7 +89,7 @@ def gen_attrs(w, r, kind):
 def gen_new(w, r, kinds=None):
     m = w.m
     kinds = kinds or list(MAXN)
-    cands = [k for k in kinds if len(m.by_kind(k)) < w.cfg.get("max_" + k, MAXN[k])]
+    cands = [k for k in kinds if sum(1 for l in m.by_kind(k) if "." not in l) < w.cfg.get("max_" + k, MAXN[k])]
     if not cands:
         return None
     wts = w.cfg.get("kind_weights", {})
@@ -88,6 +102,9 @@ def gen_new(w, r, kinds=None):
     op["attrs"] = gen_attrs(w, r, kind)
     if kind != "ir" and r.random() < w.cfg.get("p_ctor_parent", 0.5):
         ps = m.by_kind(PARENT_OF[kind][0])
+        if ps and r.random() < w.cfg.get("p_attached_parent", 0.0):
+            att = [p for p in ps if m.ir_of(p) is not None]
+            ps = att or ps
         if ps:
             op["parent"] = pick(r, ps)
     if kind in CHILD_KINDS and r.random() < w.cfg.get("p_ctor_kids", 0.25):
@@ -109,9 +126,12 @@ def gen_setparent(w, r):
     c = pick(r, cs)
     if c is None:
         return None
-    if r.random() < 0.25:
+    if r.random() < w.cfg.get("p_detach", 0.25):
         return {"op": "setparent", "child": c, "parent": None}
     ps = m.by_kind(PARENT_OF[m.nodes[c].kind][0])
+    if ps and r.random() < w.cfg.get("p_attached_parent", 0.0):
+        att = [p for p in ps if m.ir_of(p) is not None]
+        ps = att or ps
     p = pick(r, ps)
     return {"op": "setparent", "child": c, "parent": p}
 
@@ -302,7 +322,7 @@ def gen_setattr(w, r, kinds=None, attrs=None):
     elif attr == "rebase_delta":
         v = V.i64(r)
     elif attr == "entry_point":
-        v = pick(r, m.by_kind("cb")) if r.random() < 0.8 else None
+        v = pick(r, local_pool(w, r, l, ("cb",))) if r.random() < 0.8 else None
     elif attr == "flags":
         v = sorted(set(r.choice(V.SECTION_FLAGS) for _ in range(r.randrange(0, 4))))
     elif attr in ("flag_add", "flag_discard"):
@@ -323,7 +343,7 @@ def gen_setattr(w, r, kinds=None, attrs=None):
     elif attr == "at_end":
         v = r.random() < 0.5
     elif attr == "referent":
-        v = pick(r, m.by_kind("cb", "db", "px")) if r.random() < 0.85 else None
+        v = pick(r, local_pool(w, r, l, ("cb", "db", "px"))) if r.random() < 0.85 else None
     elif attr == "value":
         v = r.choice([0, 1, None, V.u64(r)])
     else:
